@@ -305,6 +305,13 @@ where
         self.min_store.create_signature::<D, H>(data)
     } // end of hash_set
 
+    /// verification hook: for each of the m positions the l selected sequence indices (as stored, unsorted before
+    /// signature creation, sorted after) and the associated race values
+    #[cfg(feature = "verif-hooks")]
+    pub fn verif_selected(&self) -> (Vec<u64>, Vec<f64>) {
+        (self.min_store.indices.clone(), self.min_store.values.clone())
+    }
+
     /// This function changes the state of internal random generator.
     /// It is mainly useful to study variance of the estimator as in tests, and should be ignored for other purposes.
     /// **If a database of hashed value is used, it must not as to keep coherent hashing.**
